@@ -1,5 +1,6 @@
 import Fabio.Model.C13
 import Fabio.Lemmas.C13
+import Fabio.Lemmas.C13Escape
 /-!
 C13 — redirect routes answer from the request alone: property theorems.
 
@@ -34,6 +35,44 @@ theorem code_zero_is_not_a_redirect (scheme : Str) (req : URL) (t : RTarget) (re
     lookupLoop scheme req (some t :: rest) = some (t, none) := by
   simp [lookupLoop, h]
 
+/-- **"…receives the configured 3xx status"**: for every option text, what `addTarget` makes of it (`strconv.Atoi`
+with its sign handling and its clamping on range errors, then the range test) is the plain decimal reading of
+the text: an optional `+` and digits with a value in 300..399 is that status; anything else configures no
+redirect. In particular every code 300..399 is honoured, not only the ones with a name in `net/http`. -/
+theorem configured_status_is_the_code (opt : Str) : redirectCode opt = configuredCode opt := by
+  match opt with
+  | [] => rfl
+  | c :: r =>
+    by_cases c43 : c = 43
+    · subst c43
+      have := core_eq r
+      simp only [redirectCode, configuredCode, dropPlus, atoi_plus, List.isEmpty_cons, Bool.false_eq_true, if_false] at this ⊢
+      rw [this]
+    · by_cases c45 : c = 45
+      · subst c45
+        have hc : configuredCode (45 :: r) = 0 := by
+          have : isDigit 45 = false := by decide
+          simp [configuredCode, dropPlus, this]
+        rw [hc]
+        simp only [redirectCode, List.isEmpty_cons, Bool.false_eq_true, if_false]
+        rcases atoi_minus r with h | h
+        · simp [h]
+        · split
+          · rfl
+          · have : ((atoi (45 :: r)).1 < 300) := by omega
+            simp [this]
+      · have hb : dropPlus (c :: r) = c :: r := by
+          unfold dropPlus
+          split
+          · rename_i heq; simp only [List.cons.injEq] at heq; exact absurd heq.1 c43
+          · rfl
+        have := core_eq (c :: r)
+        simp only [redirectCode, configuredCode, hb, atoi_unsigned c r c43 c45, List.isEmpty_cons, Bool.false_eq_true, if_false] at this ⊢
+        rw [this]
+
+/-- every 3xx code is a configured status (the whole range, by evaluation) -/
+example : (List.range 100).all (fun k => configuredCode (lit (toString (300 + k))) == ((300 + k : Nat) : Int)) = true := by decide
+example : redirectCode (lit "399") = 399 ∧ redirectCode (lit "+308") = 308 ∧ redirectCode (lit "0301") = 301 ∧ redirectCode (lit "-301") = 0 ∧ redirectCode (lit "400") = 0 := by decide
 example : redirectCode (lit "301") = 301 := by decide
 example : redirectCode (lit "200") = 0 := by decide
 example : redirectCode (lit "abc") = 0 := by decide
@@ -105,52 +144,70 @@ example : (buildRedirectURL { url := { scheme := lit "https", host := lit "$host
 theorem stripPrefix_append (s x : Str) : stripPrefix (s ++ x) s = x := by
   simp [stripPrefix, hasPrefix, isPrefixOf_self_append]
 
-theorem replacement_eq (t : RTarget) (req : URL) (r' p' : Str) (hpre : plain t.prepend = true)
+/-- the escaped form of the `prepend` value that goes in front of the raw path -/
+def escPrepend (t : RTarget) : Str := escapedPath ({ path := t.prepend } : URL)
+
+theorem escPrepend_nil (t : RTarget) (h : t.prepend = []) : escPrepend t = [] := by
+  simp [escPrepend, h, escapedPath, escape]
+
+theorem replacement_eq (t : RTarget) (req : URL) (r' p' : Str)
     (hraw : escapedPath req = t.strip ++ r') (hpath : req.path = t.strip ++ p') :
-    replacement t req = (t.prepend ++ p', t.prepend ++ r') := by
-  have hesc : escapedPath ({ path := t.prepend } : URL) = t.prepend := escapedPath_plain _ rfl hpre
+    replacement t req = (t.prepend ++ p', escPrepend t ++ r') := by
   unfold replacement
   by_cases hs : t.strip = []
   · simp only [hs, List.nil_append] at hraw hpath
-    by_cases hp : t.prepend = [] <;> simp [hs, hp, hraw, hpath, hesc]
-  · by_cases hp : t.prepend = [] <;> simp [hs, hp, hraw, hpath, stripPrefix_append, hesc]
+    by_cases hp : t.prepend = []
+    · simp [hs, hp, hraw, hpath, escPrepend_nil t hp]
+    · simp [hs, hp, hraw, hpath, escPrepend]
+  · by_cases hp : t.prepend = []
+    · simp [hs, hp, hraw, hpath, stripPrefix_append, escPrepend_nil t hp]
+    · simp [hs, hp, hraw, hpath, stripPrefix_append, escPrepend]
 
-/-- core: once the template is normalised to `prefix ++ "$path"` -/
-theorem escapedPath_core (t : RTarget) (req : URL) (u3 : URL) (pfx r' p' : Str)
-    (h3p : u3.path = pfx ++ vPath) (h3r : u3.rawPath = pfx ++ vPath) (hd : ∀ c ∈ pfx, c ≠ 36)
-    (hplain : plain pfx = true) (hpre : plain t.prepend = true)
+/-- core: once the template is normalised to `prefix ++ "$path"` (decoded) / `eprefix ++ "$path"` (escaped) -/
+theorem escapedPath_core (t : RTarget) (req : URL) (u3 : URL) (pfx epfx r' p' : Str)
+    (h3p : u3.path = pfx ++ vPath) (h3r : u3.rawPath = epfx ++ vPath)
+    (hd : ∀ c ∈ pfx, c ≠ 36) (hde : ∀ c ∈ epfx, c ≠ 36)
+    (hev : validEncoded epfx = true) (heu : unescape epfx = some pfx)
     (hraw : escapedPath req = t.strip ++ r') (hpath : req.path = t.strip ++ p')
-    (hv : validEncoded r' = true) (hu : unescape r' = some p') (hr : r' ≠ [])
+    (hv : validEncoded r' = true) (hu : unescape r' = some p')
     (habs : hasPrefix (pfx ++ (t.prepend ++ p')) slash = true) :
-    escapedPath (stage6 req (stage5 (stage4 t req u3))) = pfx ++ (t.prepend ++ r') := by
+    escapedPath (stage6 req (stage5 (stage4 t req u3))) = epfx ++ (escPrepend t ++ r') := by
   have hc : contains vPath u3.path = true := by
     rw [h3p]; have := contains_vPath_append pfx []; simpa using this
   have e4p : (stage4 t req u3).path = pfx ++ (t.prepend ++ p') := by
-    unfold stage4; rw [if_pos hc, replacement_eq t req r' p' hpre hraw hpath]
+    unfold stage4; rw [if_pos hc, replacement_eq t req r' p' hraw hpath]
     simp only []
     have := replace1_vPath_append pfx (t.prepend ++ p') [] hd
     simp only [List.append_nil] at this
     split <;> simp [h3p, this]
-  have e4r : (stage4 t req u3).rawPath = pfx ++ (t.prepend ++ r') := by
-    unfold stage4; rw [if_pos hc, replacement_eq t req r' p' hpre hraw hpath]
+  have e4r : (stage4 t req u3).rawPath = epfx ++ (escPrepend t ++ r') := by
+    unfold stage4; rw [if_pos hc, replacement_eq t req r' p' hraw hpath]
     simp only []
-    have := replace1_vPath_append pfx (t.prepend ++ r') [] hd
+    have := replace1_vPath_append epfx (escPrepend t ++ r') [] hde
     simp only [List.append_nil] at this
     split <;> simp [h3r, this]
   have e5 : stage5 (stage4 t req u3) = stage4 t req u3 := by
     unfold stage5; rw [e4p, habs]; rfl
   have e5p : (stage5 (stage4 t req u3)).path = pfx ++ (t.prepend ++ p') := by rw [e5]; exact e4p
-  have e5r : (stage5 (stage4 t req u3)).rawPath = pfx ++ (t.prepend ++ r') := by rw [e5]; exact e4r
+  have e5r : (stage5 (stage4 t req u3)).rawPath = epfx ++ (escPrepend t ++ r') := by rw [e5]; exact e4r
   have e6p : (stage6 req (stage5 (stage4 t req u3))).path = pfx ++ (t.prepend ++ p') := by
     unfold stage6; split <;> simp [e5p]
-  have e6r : (stage6 req (stage5 (stage4 t req u3))).rawPath = pfx ++ (t.prepend ++ r') := by
+  have e6r : (stage6 req (stage5 (stage4 t req u3))).rawPath = epfx ++ (escPrepend t ++ r') := by
     unfold stage6; split <;> simp [e5r]
-  have hval : validEncoded (pfx ++ (t.prepend ++ r')) = true := by
-    simp [validEncoded_append, validEncoded_plain _ hplain, validEncoded_plain _ hpre, hv]
-  have hun : unescape (pfx ++ (t.prepend ++ r')) = some (pfx ++ (t.prepend ++ p')) := by
-    rw [unescape_plain_append _ _ hplain, unescape_plain_append _ _ hpre, hu]; rfl
-  have hne' : pfx ++ (t.prepend ++ r') ≠ [] := by
-    intro h; simp only [List.append_eq_nil_iff] at h; exact hr h.2.2
+  have hpv : validEncoded (escPrepend t) = true := escapedPath_valid _
+  have hpu : unescape (escPrepend t) = some t.prepend := escapedPath_decodes _
+  have hval : validEncoded (epfx ++ (escPrepend t ++ r')) = true := by
+    simp [validEncoded_append, hev, hpv, hv]
+  have hun : unescape (epfx ++ (escPrepend t ++ r')) = some (pfx ++ (t.prepend ++ p')) := by
+    rw [unescape_append _ _ _ heu, unescape_append _ _ _ hpu, hu]; rfl
+  have hne' : epfx ++ (escPrepend t ++ r') ≠ [] := by
+    intro h
+    rw [h] at hun
+    have h0 : pfx ++ (t.prepend ++ p') = [] := by
+      have : unescape [] = some ([] : Str) := rfl
+      rw [this] at hun; exact (Option.some.inj hun).symm
+    rw [h0] at habs
+    exact absurd habs (by decide)
   unfold escapedPath
   rw [e6p, e6r]
   simp [hne', hval, hun]
@@ -165,67 +222,124 @@ theorem norm_hostPath (t : RTarget) (h : Str) (hh : t.url.host = h ++ vPath) :
   unfold stage2; rw [if_pos hs]
   unfold stage3; simp [e]
 
-theorem stage1_rawPath_plain (t : RTarget) (hr0 : t.url.rawPath = []) (hpl : plain t.url.path = true) :
-    (stage1 t).rawPath = t.url.path := by
-  simp only [stage1]; exact escapedPath_plain _ hr0 hpl
-
-theorem norm_slashPath (t : RTarget) (pfx : Str) (hh : hasSuffix t.url.host vPath = false)
-    (hp : t.url.path = pfx ++ vSlashPath) (hd : ∀ c ∈ pfx, c ≠ 36)
-    (hr0 : t.url.rawPath = []) (hpl : plain pfx = true) :
-    (stage3 (stage2 (stage1 t))).path = pfx ++ vPath ∧ (stage3 (stage2 (stage1 t))).rawPath = pfx ++ vPath := by
+theorem norm_slashPath (t : RTarget) (pfx epfx : Str) (hh : hasSuffix t.url.host vPath = false)
+    (hp : t.url.path = pfx ++ vSlashPath) (he : escapedPath t.url = epfx ++ vSlashPath)
+    (hd : ∀ c ∈ pfx, c ≠ 36) (hde : ∀ c ∈ epfx, c ≠ 36) :
+    (stage3 (stage2 (stage1 t))).path = pfx ++ vPath ∧ (stage3 (stage2 (stage1 t))).rawPath = epfx ++ vPath := by
   have e2 : stage2 (stage1 t) = stage1 t := by unfold stage2; simp [stage1, hh]
   have hc : contains vSlashPath (stage1 t).path = true := by
     have := contains_vSlashPath_append pfx []; simpa [stage1, hp] using this
   have hr := replace1_vSlashPath_append pfx [] hd
-  simp only [List.append_nil] at hr
-  have hraw : (stage1 t).rawPath = pfx ++ vSlashPath := by
-    rw [stage1_rawPath_plain t hr0 (by rw [hp, plain_append, hpl]; decide), hp]
+  have hre := replace1_vSlashPath_append epfx [] hde
+  simp only [List.append_nil] at hr hre
+  have hraw : (stage1 t).rawPath = epfx ++ vSlashPath := by simp [stage1, he]
   have hpath : (stage1 t).path = pfx ++ vSlashPath := by simp [stage1, hp]
   rw [e2]; unfold stage3; rw [if_pos hc]
-  simp [hraw, hpath, hr]
+  simp [hraw, hpath, hr, hre]
 
-theorem norm_barePath (t : RTarget) (pfx : Str) (hh : hasSuffix t.url.host vPath = false)
-    (hp : t.url.path = pfx ++ vPath) (hd : ∀ c ∈ pfx, c ≠ 36) (hl : pfx.getLast? ≠ some 47)
-    (hr0 : t.url.rawPath = []) (hpl : plain pfx = true) :
-    (stage3 (stage2 (stage1 t))).path = pfx ++ vPath ∧ (stage3 (stage2 (stage1 t))).rawPath = pfx ++ vPath := by
+theorem norm_barePath (t : RTarget) (pfx epfx : Str) (hh : hasSuffix t.url.host vPath = false)
+    (hp : t.url.path = pfx ++ vPath) (he : escapedPath t.url = epfx ++ vPath)
+    (hd : ∀ c ∈ pfx, c ≠ 36) (hl : pfx.getLast? ≠ some 47) :
+    (stage3 (stage2 (stage1 t))).path = pfx ++ vPath ∧ (stage3 (stage2 (stage1 t))).rawPath = epfx ++ vPath := by
   have e2 : stage2 (stage1 t) = stage1 t := by unfold stage2; simp [stage1, hh]
   have hc : contains vSlashPath (stage1 t).path = false := by
     simpa [stage1, hp] using not_contains_vSlashPath pfx hd hl
-  have hraw : (stage1 t).rawPath = pfx ++ vPath := by
-    rw [stage1_rawPath_plain t hr0 (by rw [hp, plain_append, hpl]; decide), hp]
+  have hraw : (stage1 t).rawPath = epfx ++ vPath := by simp [stage1, he]
   have hpath : (stage1 t).path = pfx ++ vPath := by simp [stage1, hp]
   rw [e2]; unfold stage3; rw [if_neg (by simp [hc])]
   simp [hraw, hpath]
 
-/-- **The Location path is the request's path, in the request's own encoding.**
-For each of the three spellings — `host$path`, `…prefix/$path`, `…prefix$path` — of a template whose
-prefix is plain (no byte that needs escaping, no `$`), with a plain `prepend`, and a request whose escaped path
-(`URL.EscapedPath()`: the bytes the client wrote whenever they are a valid encoding) is `strip ++ r'` and whose
-decoded path is `strip ++ p'` (`strip` empty or applying literally to both): the bytes that go into `Location` are exactly `prefix ++ prepend ++ r'` — the client's percent-encoding
-(`%2F`, `%3F`, `%25`, lower-case hex …) is kept byte for byte.
+/-- **The Location path is the request's path, in the request's own encoding** — templates that carry an
+encoding of their own. For each of the three spellings — `host$path`, `…prefix/$path`, `…prefix$path` — where the
+template's escaped path (`URL.EscapedPath()` of the parsed template) is `eprefix ++ "/$path"` resp.
+`eprefix ++ "$path"` with `eprefix` a valid encoding of the decoded `prefix`, *any* `prepend` value, and a
+request whose escaped path is `strip ++ r'` and whose decoded path is `strip ++ p'`: the bytes that go into
+`Location` are exactly `eprefix ++ escaped(prepend) ++ r'` — the template's and the client's percent-encoding
+(`%2F`, `%3F`, `%25`, lower-case hex …) are kept byte for byte, and the literal `prepend` is escaped.
 
-The hypothesis that strip applies literally to both paths is forced: without it the statement is false on
-the code (finding D17d, strip matching only one of the two paths). The plainness hypotheses on prefix and
-prepend are *not* forced any more since the repairs of D17b/D17c (the code escapes the literal parts); they
-remain here because lifting them needs `unescape (escape s) = some s` for arbitrary bytes, which is
-covered by the correspondence (`c13.url` spec) and not proved. Before the repair of D17 the statement was
-false for every `host$path` template (`https://$host$path`, `/a%2Fb` ↦ `/a/b`). -/
+Round 3: no plainness hypothesis on prefix and prepend is left — `unescape ∘ escape = id` and
+`validEncoded ∘ escape` are proved for arbitrary bytes (`Lemmas/C13Escape.lean`) — and the request may come
+with or without a raw path (`hraw` speaks about `EscapedPath()`, the default encoding included).
+
+The hypothesis that strip applies literally to both paths is forced: without it the statement is false on the
+code (finding D17d). The shape `eprefix ++ "/$path"` of the *escaped* template excludes an encoded slash in
+front of `$path` (finding D17f). -/
+theorem location_path_is_request_path_enc (t : RTarget) (req : URL) (pfx epfx r' p' : Str)
+    (spelling :
+      (∃ h, t.url.host = h ++ vPath ∧ pfx = [] ∧ epfx = []) ∨
+      (hasSuffix t.url.host vPath = false ∧ t.url.path = pfx ++ vSlashPath ∧ escapedPath t.url = epfx ++ vSlashPath) ∨
+      (hasSuffix t.url.host vPath = false ∧ t.url.path = pfx ++ vPath ∧ escapedPath t.url = epfx ++ vPath ∧
+        pfx.getLast? ≠ some 47))
+    (hd : ∀ c ∈ pfx, c ≠ 36) (hde : ∀ c ∈ epfx, c ≠ 36)
+    (hev : validEncoded epfx = true) (heu : unescape epfx = some pfx)
+    (hs : ∀ c ∈ t.strip, c ≠ 37)
+    (hraw : escapedPath req = t.strip ++ r') (hpath : req.path = t.strip ++ p')
+    (habs : hasPrefix (pfx ++ (t.prepend ++ p')) slash = true) :
+    escapedPath (buildRedirectURL t req) = epfx ++ (escPrepend t ++ r') := by
+  have hn : (stage3 (stage2 (stage1 t))).path = pfx ++ vPath ∧ (stage3 (stage2 (stage1 t))).rawPath = epfx ++ vPath := by
+    rcases spelling with ⟨h, hh, rfl, rfl⟩ | ⟨hh, hp, he⟩ | ⟨hh, hp, he, hl⟩
+    · exact norm_hostPath t h hh
+    · exact norm_slashPath t pfx epfx hh hp he hd hde
+    · exact norm_barePath t pfx epfx hh hp he hd hl
+  obtain ⟨hv, hu⟩ := rest_decodes req t.strip r' p' hs hraw hpath
+  exact escapedPath_core t req _ pfx epfx r' p' hn.1 hn.2 hd hde hev heu hraw hpath hv hu habs
+
+/-- a template without a raw-path hint (what `url.Parse` yields whenever the template is written in the
+default encoding): its escaped path is `escape` of the decoded one -/
+theorem escapedPath_template (t : RTarget) (pfx v : Str) (hr0 : t.url.rawPath = []) (hp : t.url.path = pfx ++ v)
+    (hv : escape .path v = v) (hne : pfx ++ v ≠ [42]) :
+    escapedPath t.url = escape .path pfx ++ v := by
+  unfold escapedPath
+  simp only [hr0, ne_eq, not_true_eq_false, decide_false, Bool.false_and, Bool.false_eq_true, if_false]
+  rw [hp]
+  have : (pfx ++ v == [42]) = false := by simpa using hne
+  rw [this]
+  simp only [Bool.false_eq_true, if_false]
+  rw [escape_append, hv]
+
+/-- **The Location path is the request's path, in the request's own encoding** — the documented templates
+(`url.Parse` left no raw-path hint): for `host$path`, `…prefix/$path`, `…prefix$path` with *any* prefix bytes
+(no `$`), *any* `prepend`, and a request (with or without raw path) whose escaped path is `strip ++ r'` and whose
+decoded path is `strip ++ p'`, `strip` free of `%`:
+`EscapedPath(redirect URL) = escape(prefix) ++ escaped(prepend) ++ r'`.
+**Partial** in one point only, and that one is forced by the code: `strip` must apply literally to both the
+decoded and the escaped request path (finding D17d, replayed from the corpus). -/
 theorem location_path_is_request_path (t : RTarget) (req : URL) (pfx r' p' : Str)
     (spelling :
       (∃ h, t.url.host = h ++ vPath ∧ pfx = []) ∨
       (hasSuffix t.url.host vPath = false ∧ t.url.rawPath = [] ∧ t.url.path = pfx ++ vSlashPath) ∨
       (hasSuffix t.url.host vPath = false ∧ t.url.rawPath = [] ∧ t.url.path = pfx ++ vPath ∧ pfx.getLast? ≠ some 47))
-    (hd : ∀ c ∈ pfx, c ≠ 36) (hplain : plain pfx = true) (hpre : plain t.prepend = true)
+    (hd : ∀ c ∈ pfx, c ≠ 36) (hs : ∀ c ∈ t.strip, c ≠ 37)
     (hraw : escapedPath req = t.strip ++ r') (hpath : req.path = t.strip ++ p')
-    (hv : validEncoded r' = true) (hu : unescape r' = some p') (hr : r' ≠ [])
     (habs : hasPrefix (pfx ++ (t.prepend ++ p')) slash = true) :
-    escapedPath (buildRedirectURL t req) = pfx ++ (t.prepend ++ r') := by
-  have hn : (stage3 (stage2 (stage1 t))).path = pfx ++ vPath ∧ (stage3 (stage2 (stage1 t))).rawPath = pfx ++ vPath := by
-    rcases spelling with ⟨h, hh, rfl⟩ | ⟨hh, hr0, hp⟩ | ⟨hh, hr0, hp, hl⟩
-    · exact norm_hostPath t h hh
-    · exact norm_slashPath t pfx hh hp hd hr0 hplain
-    · exact norm_barePath t pfx hh hp hd hl hr0 hplain
-  exact escapedPath_core t req _ pfx r' p' hn.1 hn.2 hd hplain hpre hraw hpath hv hu hr habs
+    escapedPath (buildRedirectURL t req) = escape .path pfx ++ (escPrepend t ++ r') := by
+  have e1 : escape .path vSlashPath = vSlashPath := by decide
+  have e2 : escape .path vPath = vPath := by decide
+  have hne1 : pfx ++ vSlashPath ≠ [42] := by
+    intro h; have := congrArg List.length h; simp [vSlashPath, vPath] at this
+  have hne2 : pfx ++ vPath ≠ [42] := by
+    intro h; have := congrArg List.length h; simp [vPath] at this
+  refine location_path_is_request_path_enc t req pfx (escape .path pfx) r' p' ?_ hd (escape_no_dollar pfx hd)
+    (validEncoded_escape pfx) (unescape_escape pfx) hs hraw hpath habs
+  rcases spelling with ⟨h, hh, rfl⟩ | ⟨hh, hr0, hp⟩ | ⟨hh, hr0, hp, hl⟩
+  · exact Or.inl ⟨h, hh, rfl, rfl⟩
+  · exact Or.inr (Or.inl ⟨hh, hp, escapedPath_template t pfx vSlashPath hr0 hp e1 hne1⟩)
+  · exact Or.inr (Or.inr ⟨hh, hp, escapedPath_template t pfx vPath hr0 hp e2 hne2, hl⟩)
+
+/-- non-vacuity of `location_path_is_request_path`: a prefix and a prepend that both need escaping, a request
+*without* raw path whose default encoding escapes a space, strip applying to both paths -/
+example :
+    let t : RTarget := { url := { scheme := lit "https", host := lit "bar.com", path := lit "/a b/$path" }, strip := lit "/s", prepend := lit "/p q", code := 302 }
+    let req : URL := { host := lit "x.com", path := lit "/s/x y" }
+    escapedPath req = t.strip ++ lit "/x%20y" ∧ req.path = t.strip ++ lit "/x y" ∧
+    escapedPath (buildRedirectURL t req) = escape .path (lit "/a b") ++ (escPrepend t ++ lit "/x%20y") ∧
+    escapedPath (buildRedirectURL t req) = lit "/a%20b/p%20q/x%20y" := by decide
+/-- …and of the `_enc` form: the template's own `%2F` (D17b) together with the client's -/
+example :
+    let t : RTarget := { url := { scheme := lit "https", host := lit "bar.com", path := lit "/a/b/$path", rawPath := lit "/a%2Fb/$path" }, code := 301 }
+    let req : URL := { host := lit "x.com", path := lit "/x/y", rawPath := lit "/x%2Fy" }
+    escapedPath t.url = lit "/a%2Fb" ++ vSlashPath ∧ unescape (lit "/a%2Fb") = some (lit "/a/b") ∧
+    escapedPath (buildRedirectURL t req) = lit "/a%2Fb/x%2Fy" := by decide
 
 /-- D17's witness, now repaired: `https://$host$path`, request `/a%2Fb` keeps `%2F`. -/
 example : location { url := { scheme := lit "https", host := lit "$host$path" }, code := 301 }
